@@ -13,7 +13,12 @@ from collections import Counter
 
 
 def main(argv=None):
-	args = json.loads((argv or sys.argv)[1])
+	a1 = (argv or sys.argv)[1]
+	if a1.startswith('@'):
+		with open(a1[1:]) as f:
+			args = json.load(f)
+	else:
+		args = json.loads(a1)
 	repo = os.environ.get('GAMBIT_VERIF_REPO', '/repo')
 	src = os.path.join(repo, 'src')
 	if src not in sys.path:
